@@ -12,7 +12,7 @@ Writes seeded/RESULTS.json (merged with earlier results) and prints one line per
 import json, os, subprocess, sys, time, glob
 
 VERIF = os.path.dirname(os.path.dirname(os.path.abspath(__file__)))
-REPO = '/repo'
+REPO = os.environ.get('VERIF_REPO', '/repo')       # a scratch worktree when the runs are made in the background
 ALL = [f'C{i:02d}' for i in range(1, 21)]
 
 
@@ -68,7 +68,7 @@ def main():
             names.append(a)
     if not names:
         names = sorted(d for d in os.listdir(f'{VERIF}/seeded') if os.path.isdir(f'{VERIF}/seeded/{d}'))
-    resfile = f'{VERIF}/seeded/RESULTS.json'
+    resfile = os.environ.get('VERIF_SEEDED_RESULTS') or f'{VERIF}/seeded/RESULTS.json'
     results = json.load(open(resfile)) if os.path.exists(resfile) else {}
     if not repo_clean():
         print('refusing: /repo has uncommitted changes to tracked files'); sys.exit(2)
